@@ -148,16 +148,23 @@ CLAIMED = {
              'with a warning quoting the ValueError) - the model reproduces this; only the top-level case is claimed '
              'as "reported with ValueError". The trailing-comment path of _run_pretty is covered by C09.'),
     'C03': dict(
-        text='Theorems C03_same_tokens / C03_tokens_any_context (Proofs/PrettyToks3.v, by induction over unbounded values): '
-             'width and ribbon are not inputs of the document python_to_sdocs builds, and for every well-formed value '
-             '(built-ins, subclass instances, commented values, pretty_call objects, paths) the documents built under '
-             'any two indents / multiline strategies / comment placements denote in EVERY layout the same token '
-             'sequence etoks(expr_of v), which mentions none of the layout settings. The clause "every line is indented '
-             'by a multiple of indent" and the ast equality are checked on the implementation by the oracle (ast.dump '
-             'under 4 configurations per value, leading spaces of every line) and through the model correspondence; they '
-             'are not proved at the text level (partial).',
-        design='5.3 C03', technique='Coq proof (denotation lemma, induction on the value) + differential correspondence + ast oracle',
-        note=COMMON_NOTE + ' Fragment-level tokens: the theorems are stated on the token class each fragment carries; that the concatenated text lexes/parses to those tokens and that PyEval.eval agrees with CPython is validated by the oracle (tokenize/ast/eval on every generated output), not proved. repr(float), set iteration order and the order returned by sorted() are observed inputs of the model.'),
+        text='Theorems C03_same_tokens / C03_tokens_any_context (Proofs/PrettyToks3.v: width and ribbon are not inputs of '
+             'the document python_to_sdocs builds, and for every well-formed value the documents built under any two '
+             'indents / multiline strategies / comment placements denote in EVERY layout the same token sequence '
+             'etoks(expr_of v)), C03_engine_outputs_same_tokens (Proofs/EndToEnd.v: for string-free values the streams '
+             'the layout engine REALLY emits under any two widths / ribbons / indents carry the same tokens - '
+             'composition of C04_membership, the layout-to-token bridge LayToks.v and the denotation theorem), '
+             'C03_indent_multiple (Proofs/IndentE2E.v, NestDocs.v, IndentMult.v: every line break the engine emits for '
+             'ANY value of the model universe, strings and their four multi-line strategies included, at every width / '
+             'ribbon / depth / max_seq_len, is indented by a multiple of the indent). The model is compared with pformat '
+             'text; the oracle compares ast.dump under 4 configurations per value and the leading spaces of every line; '
+             'the ast of the output is compared with the ast of etoks(expr_of v) on every case.',
+        design='5.3 C03', technique='Coq proofs (denotation lemma; engine-output tokens end to end; indentation divisibility over all layouts) + differential correspondence + ast oracle',
+        note=COMMON_NOTE + ' Fragment-level tokens: for values containing strings the same-token statement is about the '
+             'document (every layout, the string document standing for one string value), not yet about the emitted '
+             'stream; that the concatenated text lexes/parses to those tokens is validated by the oracle '
+             '(tokenize/ast on every generated output), not proved. repr(float), set iteration order and the order '
+             'returned by sorted() are observed inputs of the model.'),
     'C08': dict(
         text='Theorems C08_denotes and C08_roundtrip (Proofs/PrettyToks3.v, EvalRT.v): for every subclass instance of '
              'the nine base types, nested anywhere, in every layout the printed document denotes etoks(expr_of), and '
